@@ -6,6 +6,8 @@
 //!
 //! stdin: one JSON session script
 //!   {"files_on_disk": [[relpath, text], ...],          written under a per-run temp dir (removed at exit)
+//!    "workspace_subdir": "w #1",                       the workspace root is <temp dir>/<this> (any characters; default: the temp dir)
+//!    "raw_uris": true,                                 URIs are reported verbatim instead of as workspace-relative paths
 //!    "mode": "settled" | "burst",                      settled = wait until idle after every step
 //!    "steps": [{"open": relpath, "text": t} | {"change": relpath, "text": t}
 //!              | {"request": kind, "path": relpath, "line": l, "character": c}
@@ -18,7 +20,7 @@
 //!                                                          or max_ms elapse; armed once step i has been sent
 //!                                                          (default: from the start); at most n times (default: always)
 //!   kinds: definition references hover completion documentSymbol foldingRange documentLink inlayHint
-//! stdout: {"hooks": bool, "log": [...], "timed_out": bool, "unanswered": [ids], "server_exited": bool}
+//! stdout: {"hooks": bool, "root": <absolute workspace root>, "log": [...], "timed_out": bool, "unanswered": [ids], "server_exited": bool}
 //!   log entries: {"ev":"sent","step":i,...} {"ev":"response","id":..,"kind":..,"elapsed_ms":..,"result"|"error":..}
 //!   {"ev":"publish","path":rel,"version":v,"diagnostics":[{"range":[l0,c0,l1,c1],"message":m}]}
 //!   {"ev":"timeout","waiting_for":{...}} {"ev":"idle"} {"ev":"sync","thread":n,"point":p} (hooks)
@@ -48,6 +50,8 @@ struct Shared {
     t0: Instant,
     log: Mutex<Vec<Value>>,
     root: PathBuf,
+    run_dir: PathBuf,
+    raw_uris: bool,
     done: Mutex<bool>,
 }
 
@@ -196,7 +200,12 @@ async fn read_frame<R: AsyncReadExt + Unpin>(r: &mut R) -> Option<Value> {
     serde_json::from_slice(&buf).ok()
 }
 
+static RAW_URIS: std::sync::atomic::AtomicBool = std::sync::atomic::AtomicBool::new(false);
+
 fn rel_of(root: &Path, uri: &str) -> String {
+    if RAW_URIS.load(std::sync::atomic::Ordering::SeqCst) {
+        return uri.to_string();
+    }
     if let Ok(u) = Url::parse(uri) {
         if let Ok(p) = u.to_file_path() {
             if let Ok(r) = p.strip_prefix(root) {
@@ -400,13 +409,13 @@ fn emit_and_exit(shared: &Shared, extra: Value, code: i32) -> ! {
         *done = true;
     }
     let log = shared.log.lock().unwrap().clone();
-    let mut out = json!({"hooks": cfg!(tablegen_lsp_verif), "log": log});
+    let mut out = json!({"hooks": cfg!(tablegen_lsp_verif), "log": log, "root": shared.root.to_string_lossy()});
     if let Value::Object(m) = extra {
         for (k, v) in m {
             out[k] = v;
         }
     }
-    cleanup(&shared.root);
+    cleanup(&shared.run_dir);
     println!("{}", out);
     use std::io::Write;
     let _ = std::io::stdout().flush();
@@ -421,7 +430,17 @@ fn main() {
     let nanos = std::time::SystemTime::now().duration_since(std::time::UNIX_EPOCH).unwrap().as_nanos();
     let root = PathBuf::from(cache).join(format!("run-{}-{}", std::process::id(), nanos));
     std::fs::create_dir_all(&root).expect("temp dir");
-    let root = root.canonicalize().expect("canonical");
+    let run_dir = root.canonicalize().expect("canonical");
+    let root = match script.get("workspace_subdir").and_then(|v| v.as_str()) {
+        Some(sub) if !sub.is_empty() => {
+            let r = run_dir.join(sub);
+            std::fs::create_dir_all(&r).expect("workspace dir");
+            r
+        }
+        _ => run_dir.clone(),
+    };
+    let raw_uris = script.get("raw_uris").and_then(|v| v.as_bool()).unwrap_or(false);
+    RAW_URIS.store(raw_uris, std::sync::atomic::Ordering::SeqCst);
     if let Some(fs) = script.get("files_on_disk").and_then(|f| f.as_array()) {
         for f in fs {
             let p = root.join(f[0].as_str().expect("relpath"));
@@ -431,7 +450,7 @@ fn main() {
             std::fs::write(&p, f[1].as_str().expect("text")).expect("write");
         }
     }
-    let shared = Arc::new(Shared { t0: Instant::now(), log: Mutex::new(Vec::new()), root: root.clone(), done: Mutex::new(false) });
+    let shared = Arc::new(Shared { t0: Instant::now(), log: Mutex::new(Vec::new()), root: root.clone(), run_dir: run_dir.clone(), raw_uris, done: Mutex::new(false) });
 
     // a panicking task must not print to stderr endlessly, but is recorded
     {
